@@ -27,6 +27,7 @@ def plan(tier, seed):
     q = tier == "quick"
     n = 8 if q else 16
     shards = [dict(name=f"gen{i}", kind="gen", n=6 if q else 140, max_pairs=6 if q else 10) for i in range(n)]
+    shards.append(dict(name="carried-state", kind="carried", n=15 if q else 300))
     nc = 4 if q else 8
     shards += [dict(name=f"corpus{i}", kind="corpus", start=i, step=nc * (6 if q else 1)) for i in range(nc)]
     return shards
@@ -99,7 +100,11 @@ def check_stream(case, rec):
 def run_shard(shard, rec):
     rng = random.Random(f"{shard.get('seed', 0)}:C09:{shard['name']}")
     with probes.Anchors(ANCHORS, rec):
-        if shard["kind"] == "gen":
+        if shard["kind"] == "carried":
+            for case, _msgs in cases.carried_state_streams(rng, shard["n"]):
+                check_stream(case, rec)
+                rec.count("carried_state_streams")
+        elif shard["kind"] == "gen":
             for case, _msgs in cases.stream_cases(rng, shard["n"], max_pairs=shard["max_pairs"], big=shard.get("tier") == "thorough"):
                 check_stream(case, rec)
         else:
@@ -111,7 +116,7 @@ def run_shard(shard, rec):
 
 def finish(m, tier):
     inc = probes.missing(m, ANCHORS)
-    for k in ("responses_enc", "responses_plain", "objects_compared"):
+    for k in ("responses_enc", "responses_plain", "objects_compared", "carried_state_streams"):
         if not m["counters"].get(k):
             inc.append(f"no case of {k}")
     return dict(inconclusive=inc)
